@@ -4,6 +4,7 @@
      regexp ::= branch ( '|' branch )*        branch ::= ( run | group | qchar )*
      group  ::= '(' regexp ')' | '(?:' regexp ')'      run ::= ordinary characters
      qchar  ::= ordinary character ( '?' | '*' | '+' ) [ '?' ]
+   and, under XPath, the anchors '^' and '$' as pieces of a branch.
 
    Grammar trees [branch] / [alt] are printed to pattern text by [show_b] / [show_a]; they have a
    denotation [Db] / [Da] (the list of end positions of the matches from a start position) that
@@ -25,6 +26,7 @@ Inductive branch :=
 | BEnd (cs : list N)                                   (* a final run, possibly empty *)
 | BGrp (cs : list N) (cap : bool) (a : alt) (b : branch)   (* a run, possibly empty, a group, the rest *)
 | BQ (cs : list N) (c : N) (k : qk) (rel : bool) (b : branch)   (* a run, a quantified character, the rest *)
+| BAn (cs : list N) (eol : bool) (b : branch)               (* a run, '^' or '$' (XPath), the rest *)
 with alt :=
 | AOne (b : branch)
 | ACons (b : branch) (a : alt).
@@ -38,6 +40,7 @@ Fixpoint show_b (b : branch) : list N :=
   | BEnd cs => cs
   | BGrp cs cap a b' => cs ++ 40%N :: (if cap then [] else [63%N; 58%N]) ++ show_a a ++ 41%N :: show_b b'
   | BQ cs c k rel b' => cs ++ c :: qsym k :: (if rel then [63%N] else []) ++ show_b b'
+  | BAn cs eol b' => cs ++ (if eol then 36%N else 94%N) :: show_b b'
   end
 with show_a (a : alt) : list N :=
   match a with
@@ -51,6 +54,7 @@ Fixpoint ok_b (xpath : bool) (b : branch) : bool :=
   | BEnd cs => forallb ordinary cs
   | BGrp cs cap a b' => forallb ordinary cs && (cap || xpath) && ok_a xpath a && ok_b xpath b'
   | BQ cs c k rel b' => forallb ordinary cs && ordinary c && (negb rel || xpath) && ok_b xpath b'
+  | BAn cs eol b' => forallb ordinary cs && xpath && ok_b xpath b'
   end
 with ok_a (xpath : bool) (a : alt) : bool :=
   match a with
@@ -64,17 +68,31 @@ Definition term_a (post : list N) : Prop := post = [] \/ exists t, post = 41%N :
 
 (* the first character of a printed tree, if any: never a quantifier or '?' *)
 Definition head_fine (l : list N) : Prop :=
-  match l with [] => True | c :: _ => ordinary c = true \/ c = 40%N \/ c = 41%N \/ c = 124%N end.
+  match l with
+  | [] => True
+  | c :: _ => ordinary c = true \/ c = 40%N \/ c = 41%N \/ c = 124%N \/ c = 94%N \/ c = 36%N
+  end.
+
+(* ... in particular *)
+Lemma head_fine_nq c t : head_fine (c :: t) ->
+  (c =? 63 = false /\ c =? 42 = false /\ c =? 43 = false /\ c =? 123 = false)%N.
+Proof.
+  cbn. intros [Ho|[->|[->|[->|[->| ->]]]]]; try (repeat split; reflexivity).
+  destruct (ordinary_tests c Ho) as (_ & _ & _ & _ & _ & T6 & _ & _ & _ & _ & _ & T12 & T13 & T14).
+  cbv delta [c_lbrace c_qmark c_star c_plus] in *. auto.
+Qed.
 
 Lemma head_fine_b xpath b post : ok_b xpath b = true -> term_b post -> head_fine (show_b b ++ post).
 Proof.
-  intros Hok Ht. destruct b as [cs|cs cap a b'|cs c0 k rel b']; cbn [show_b ok_b] in *.
+  intros Hok Ht. destruct b as [cs|cs cap a b'|cs c0 k rel b'|cs eol b']; cbn [show_b ok_b] in *.
   - destruct cs as [|c t]; cbn [app].
     + destruct Ht as [->|(t & [->| ->])]; cbn; auto.
     + cbn [forallb] in Hok. apply andb_true_iff in Hok as [Hc _]. cbn. auto.
   - destruct cs as [|c t]; cbn [app]; [cbn; auto|].
     do 3 (apply andb_true_iff in Hok as [Hok ?]). cbn [forallb] in Hok. apply andb_true_iff in Hok as [Hc _]. cbn. auto.
   - do 3 (apply andb_true_iff in Hok as [Hok ?]). destruct cs as [|c t]; cbn [app]; [cbn; auto|].
+    cbn [forallb] in Hok. apply andb_true_iff in Hok as [Hc _]. cbn. auto.
+  - do 2 (apply andb_true_iff in Hok as [Hok ?]). destruct cs as [|c t]; cbn [app]; [destruct eol; cbn; auto 10|].
     cbn [forallb] in Hok. apply andb_true_iff in Hok as [Hc _]. cbn. auto.
 Qed.
 
@@ -101,11 +119,15 @@ Definition fl_of : sflags := {| s_i := ci; s_m := multi; s_s := false; s_x := fa
 Definition Dq (c : N) (k : qk) (rel : bool) (p : nat) : list nat :=
   ends fl_of input (RQuant (RChar c) (qmin k) (qmaxo k) (negb rel)) p.
 
+(* an anchor holds where the specification says it does (flag m) *)
+Definition Dan (eol : bool) (p : nat) : list nat := ends fl_of input (if eol then REol else RBol) p.
+
 Fixpoint Db (b : branch) (p : nat) : list nat :=
   match b with
   | BEnd cs => lit cs p
   | BGrp cs cap a b' => flat_map (Db b') (flat_map (Da a) (lit cs p))
   | BQ cs c k rel b' => flat_map (Db b') (flat_map (Dq c k rel) (lit cs p))
+  | BAn cs eol b' => flat_map (Db b') (flat_map (Dan eol) (lit cs p))
   end
 with Da (a : alt) (p : nat) : list nat :=
   match a with
@@ -127,6 +149,10 @@ Lemma Dq_le c k rel p q : p <= n -> In q (Dq c k rel p) -> q <= n.
 Proof.
   intros Hp H. unfold Dq in H. eapply (ends_le fl_of input); [|exact Hp|exact H].
   cbn [quant_wf]. split; [exact I|]. destruct k; cbn; auto; lia.
+Qed.
+Lemma Dan_le eol p q : p <= n -> In q (Dan eol p) -> q <= n.
+Proof.
+  intros Hp H. unfold Dan in H. eapply (ends_le fl_of input); [|exact Hp|exact H]. destruct eol; exact I.
 Qed.
 End Den.
 
@@ -179,7 +205,25 @@ Proof. intros H. unfold is_at. rewrite at_skipn, H. reflexivity. Qed.
 
 (* --- the atom scanner over a run of ordinary characters --- *)
 Definition stops (l : list N) : Prop :=
-  match l with [] => True | c :: _ => c = 40%N \/ c = 41%N \/ c = 124%N end.
+  match l with
+  | [] => True
+  | c :: _ => c = 40%N \/ c = 41%N \/ c = 124%N \/ (xpath = true /\ (c = 94%N \/ c = 36%N))
+  end.
+
+(* what the scanner does at such a character *)
+Lemma stops_tests c t : stops (c :: t) ->
+  (c =? c_bslash)%N = false
+  /\ forall (A : Type) (x y z w v : A),
+       (if ((c =? c_rbrack) || (c =? c_dot) || (c =? c_lbrack) || (c =? c_lparen) || (c =? c_rparen) || (c =? c_bar))%N then x
+        else if is_quant c then y
+        else if (c =? c_rbrace)%N then z
+        else if (c =? c_bslash)%N then w
+        else if (((c =? c_caret) || (c =? c_dollar)) && xpath)%N then x
+        else v) = x.
+Proof.
+  cbn. intros [->|[->|[->|(Hx & [->| ->])]]]; (split; [reflexivity|]); intros A x y z w v; try reflexivity;
+    rewrite Hx; reflexivity.
+Qed.
 
 Lemma atom_loop_run : forall cs fuel st ub post, forallb ordinary cs = true -> stops post ->
   skipn (idx st) pat = cs ++ post -> idx st <= len -> length cs < fuel ->
@@ -189,8 +233,8 @@ Proof.
   - cbn [app] in Hs. cbn [atom_loop rev app length]. fold len. rewrite Nat.add_0_r, set_idx_same.
     destruct (Nat.leb len (idx st)) eqn:L; [reflexivity|]. apply Nat.leb_gt in L.
     destruct post as [|c t]; [apply skipn_nil_len in Hs; lia|].
-    assert (Hb : is_at pat (idx st) c_bslash = false).
-    { rewrite (is_at_hd _ _ _ _ Hs). cbn in Hst. destruct Hst as [->|[->| ->]]; reflexivity. }
+    destruct (stops_tests c t Hst) as [Hbs Hsel].
+    assert (Hb : is_at pat (idx st) c_bslash = false) by (rewrite (is_at_hd _ _ _ _ Hs); exact Hbs).
     assert (Tail : (match at_ pat (idx st) with
               | None => Panic 35
               | Some ch0 =>
@@ -208,7 +252,7 @@ Proof.
                   else if ((ch0 =? c_caret) || (ch0 =? c_dollar)) && xpath then Ok (ub, st)
                   else atom_loop pat xpath f (adv 1 st) (ch0 :: ub)
               end)%N = Ok (ub, st)).
-    { rewrite at_skipn, Hs. cbn [hd_error]. cbn in Hst. destruct Hst as [->|[->| ->]]; reflexivity. }
+    { rewrite at_skipn, Hs. cbn [hd_error]. apply Hsel. }
     destruct (Nat.ltb (idx st + 1) len) eqn:L1.
     + rewrite at_skipn. destruct (skipn_step _ _ _ Hs) as [Hs1 _]. rewrite Hs1, Hb.
       destruct t as [|c2 t2]; cbn [hd_error].
@@ -247,7 +291,7 @@ Proof.
     + rewrite at_skipn, Hs1, Hb.
       assert (Hq : match (cs ++ post) with [] => True | c :: _ => is_quant c = false end).
       { destruct cs as [|c2 cs2]; cbn [app].
-        - destruct post as [|c2 t2]; auto. cbn in Hst. destruct Hst as [->|[->| ->]]; reflexivity.
+        - destruct post as [|c2 t2]; auto. cbn in Hst. destruct Hst as [->|[->|[->|(_ & [->| ->])]]]; reflexivity.
         - cbn [forallb] in Ho. apply andb_true_iff in Ho as [Oc2 _]. apply ordinary_not_quant. exact Oc2. }
       destruct (cs ++ post) as [|c2 t2]; cbn [hd_error].
       * apply skipn_nil_len in Hs1; [|lia]. apply Nat.ltb_lt in L1. lia.
@@ -346,8 +390,7 @@ Proof.
   destruct (skipn (idx st) pat) as [|c t] eqn:Hs; [apply skipn_nil_len in Hs; lia|].
   rewrite at_skipn, Hs. cbn [hd_error].
   assert (Q : (c =? c_qmark = false /\ c =? c_star = false /\ c =? c_plus = false /\ c =? c_lbrace = false)%N).
-  { cbn in Hh. destruct Hh as [Ho|[->|[->| ->]]]; [|repeat split; reflexivity..].
-    destruct (ordinary_tests c Ho) as (_ & _ & _ & _ & _ & T6 & _ & _ & _ & _ & _ & T12 & T13 & T14). auto. }
+  { destruct (head_fine_nq c t Hh) as (N1 & N2 & N3 & N4). repeat split; assumption. }
   destruct Q as (Q1 & Q2 & Q3 & Q4). rewrite Q1, Q2, Q3, Q4. cbn [orb rbind].
   rewrite (is_at_hd _ _ _ _ Hs), Q1, andb_false_r. cbn [rbind]. rewrite ?Q1, ?Q2, ?Q3, ?Q4. reflexivity.
 Qed.
@@ -470,7 +513,7 @@ Proof. reflexivity. Qed.
 
 (* --- a run of ordinary characters is one piece --- *)
 Lemma stops_head_fine post : stops post -> head_fine post.
-Proof. destruct post as [|c t]; cbn; auto. Qed.
+Proof. destruct post as [|c t]; cbn; auto. intros [H|[H|[H|(_ & [H|H])]]]; auto 10. Qed.
 
 Lemma skipn_len_le i (x y : list N) : skipn i pat = x ++ y -> i <= len -> i + length x + length y = len.
 Proof.
@@ -576,9 +619,7 @@ Proof.
     - destruct rest as [|c2 t2].
       + apply skipn_nil_len in Hs1; [|lia]. rewrite Hs1, Nat.ltb_irrefl. reflexivity.
       + rewrite (is_at_hd _ _ _ 63%N Hs1).
-        assert (c2 =? 63 = false)%N.
-        { cbn in Hh. destruct Hh as [Ho|[->|[->| ->]]]; try reflexivity.
-          destruct (ordinary_tests c2 Ho) as (_ & _ & _ & _ & _ & _ & _ & _ & _ & _ & _ & T12 & _). exact T12. }
+        assert (c2 =? 63 = false)%N by (apply (head_fine_nq c2 t2 Hh)).
         rewrite H, andb_false_r. reflexivity. }
   destruct k; cbn [qsym]; cbv [c_qmark c_star c_plus c_lbrace]; cbn [N.eqb Pos.eqb orb rbind];
     cbn [is_bol_eol mes]; change (zls_never =? zls_any)%N with false; cbv iota; cbn [rbind];
@@ -670,6 +711,29 @@ Proof.
     + apply in_rev in Hz. exact Hz.
 Qed.
 
+(* --- an anchor (XPath) --- *)
+Lemma piece_anchor f st (eol : bool) (rest : list N) : xpath = true -> head_fine rest ->
+  skipn (idx st) pat = (if eol then 36%N else 94%N) :: rest -> idx st <= len ->
+  piece pat xpath ci single (S (S f)) st = Ok ((if eol then OEol else OBol), adv 1 st).
+Proof.
+  intros Hx Hh Hs Hi. destruct (skipn_step _ _ _ Hs) as [Hs1 Hlt].
+  rewrite piece_S, parse_terminal_S, (at_skipn (idx st)), Hs. cbn [hd_error].
+  destruct eol.
+  - replace (N.eqb 36 c_dollar && xpath) with true by (rewrite Hx; reflexivity). cbv iota. cbn [rbind].
+    apply quantify_none; [unfold adv, set_idx; cbn [idx]; lia|]. unfold adv, set_idx. cbn [idx]. rewrite Hs1. exact Hh.
+  - replace (N.eqb 94 c_dollar && xpath) with false by (rewrite Hx; reflexivity).
+    replace (N.eqb 94 c_caret && xpath) with true by (rewrite Hx; reflexivity). cbv iota. cbn [rbind].
+    apply quantify_none; [unfold adv, set_idx; cbn [idx]; lia|]. unfold adv, set_idx. cbn [idx]. rewrite Hs1. exact Hh.
+Qed.
+
+Lemma anchor_good (eol : bool) : good (if eol then OEol else OBol).
+Proof. destruct eol; exact I. Qed.
+Lemma anchor_sem (eol : bool) p q : p <= n -> (In q (R (if eol then OEol else OBol) p) <-> In q (Dan input ci multi eol p)).
+Proof.
+  intros Hp. unfold R, Dan.
+  apply (lowersq_ends input ci multi false K (fl_of ci multi) eq_refl eq_refl Hfit); auto; destruct eol; cbn; auto.
+Qed.
+
 Definition P_b (b : branch) : Prop :=
   ok_b xpath b = true -> forall post st cur fuel,
     skipn (idx st) pat = show_b b ++ post -> idx st <= len -> term_b post ->
@@ -692,14 +756,17 @@ Definition P_a (a : alt) : Prop :=
 
 (* a run (possibly empty) before a group: parsed into the current term, the loop goes on *)
 Lemma run_prefix cs post st cur fuel : forallb ordinary cs = true ->
-  (exists t, post = 40%N :: t) -> skipn (idx st) pat = cs ++ post -> idx st <= len -> 3 <= fuel -> goodo cur ->
+  (exists c t, post = c :: t /\ (c = 40%N \/ (xpath = true /\ (c = 94%N \/ c = 36%N)))) ->
+  skipn (idx st) pat = cs ++ post -> idx st <= len -> 3 <= fuel -> goodo cur ->
   exists fuel' cur1 st1, fuel <= fuel' + 1 /\ fuel' <= fuel
     /\ branch_loop pat xpath ci single fuel st cur = branch_loop pat xpath ci single fuel' st1 cur1
     /\ idx st1 = idx st + length cs /\ hasbr st1 = hasbr st /\ goodo cur1
     /\ (forall p q, p <= n -> (In q (Ro cur1 p) <-> exists m, In m (Ro cur p) /\ In q (lit input ci cs m)))
     /\ parens st1 = parens st /\ (fro cur -> fro cur1).
 Proof.
-  intros Ho (t & ->) Hs Hi Hf Hg. destruct cs as [|c cs].
+  intros Ho (c1 & t & -> & Hc1) Hs Hi Hf Hg.
+  assert (Hst1 : stops (c1 :: t)) by (cbn; destruct Hc1 as [->|(Hx & Hc1)]; auto).
+  destruct cs as [|c cs].
   - exists fuel, cur, st. split; [lia|]. split; [lia|]. split; [reflexivity|]. split; [cbn [length]; lia|].
     split; [reflexivity|]. split; [exact Hg|]. split; [|split; [reflexivity|auto]]. intros p q Hp. split.
     + intros Hin. exists q. split; auto. rewrite lit_nil; [left; reflexivity|]. eapply Ro_le; eauto.
@@ -712,7 +779,7 @@ Proof.
     { rewrite branch_loop_S. fold len. destruct (skipn_step _ _ _ Hs) as [_ Hlt].
       replace (Nat.ltb (idx st) len) with true by (symmetry; apply Nat.ltb_lt; exact Hlt).
       rewrite (is_at_hd _ _ _ c_bar Hs), (is_at_hd _ _ _ c_rparen Hs), T8, T5. cbn [negb andb].
-      rewrite (piece_run f st c cs (40%N :: t) Ho) by (cbn; auto). cbn [rbind]. reflexivity. }
+      rewrite (piece_run f st c cs (c1 :: t) Ho Hst1 Hs Hi). cbn [rbind]. reflexivity. }
     split; [reflexivity|]. split; [reflexivity|]. split; [apply push_good; [exact Hg|exact I]|].
     split; [|split; [reflexivity|intros Hfr; apply push_fr; [exact Hfr|exact I]]].
     intros p q Hp. rewrite push_sem by (auto; exact I). reflexivity.
@@ -787,7 +854,7 @@ Proof.
     assert (Hlen : idx st + (length cs + (1 + (length opt + (length inner + (1 + (length rest + length post)))))) = len).
     { pose proof (skipn_length (idx st) pat) as L. rewrite Hs in L. fold len in L.
       rewrite app_length in L. cbn [length] in L. rewrite !app_length in L. cbn [length] in L. rewrite app_length in L. lia. }
-    destruct (run_prefix cs _ st cur fuel Ocs ltac:(eexists; reflexivity) Hs Hi ltac:(lia) Hg)
+    destruct (run_prefix cs _ st cur fuel Ocs ltac:(eexists _, _; split; [reflexivity|left; reflexivity]) Hs Hi ltac:(lia) Hg)
       as (fuel1 & cur1 & st1 & Hf1 & Hf1' & Eloop & Hi1 & Hb1 & Hg1 & Sem1 & Hp1 & Fr1).
     rewrite Eloop.
     pose proof (skipn_app_len _ _ _ Hs) as Hs1. rewrite <- Hi1 in Hs1.
@@ -814,9 +881,7 @@ Proof.
           { pose proof (head_fine_a xpath a (41%N :: rest ++ post) Oka ltac:(right; eexists; reflexivity)) as Hh.
             fold inner in Hh.
             destruct (inner ++ 41%N :: rest ++ post) as [|c2 t2] eqn:E2; [destruct inner; discriminate|].
-            rewrite (is_at_hd _ _ _ c_qmark Hs2). cbn in Hh.
-            destruct Hh as [Ho2|[->|[->| ->]]]; try reflexivity.
-            destruct (ordinary_tests c2 Ho2) as (_ & _ & _ & _ & _ & _ & _ & _ & _ & _ & _ & T12 & _). exact T12. }
+            rewrite (is_at_hd _ _ _ c_qmark Hs2). apply (head_fine_nq c2 t2 Hh). }
           rewrite Hq, andb_false_r. cbn [andb]. eexists _, _, _. split; [reflexivity|]. cbn [idx hasbr parens]. repeat split; lia.
         - (* '(?:' *)
           cbn [orb] in Hcx.
@@ -936,6 +1001,55 @@ Proof.
       exists m. split; [|exact Hq]. apply push_sem; auto using qop_good. exists m1. split.
       * apply (Sem1 p m1 Hp). eauto.
       * apply qop_sem; [|exact Hm]. apply (lit_le input ci cs m0 m1) in Hm1. lia.
+  - (* BAn *) intros cs eol b' IHb Hok post st cur fuel Hs Hi Ht Hf Hg.
+    cbn [ok_b] in Hok. apply andb_true_iff in Hok as [Hok Okb]. apply andb_true_iff in Hok as [Ocs Hx].
+    cbn [show_b] in Hs, Hf |- *.
+    set (rest := show_b b') in *.
+    assert (Lsh : length (cs ++ (if eol then 36%N else 94%N) :: rest) = length cs + 1 + length rest) by (rewrite app_length; cbn [length]; lia).
+    rewrite Lsh in Hf |- *.
+    assert (Hs' : skipn (idx st) pat = cs ++ (if eol then 36%N else 94%N) :: rest ++ post) by (rewrite Hs, <- app_assoc; reflexivity).
+    clear Hs. rename Hs' into Hs.
+    assert (Hlen : idx st + (length cs + (1 + (length rest + length post))) = len).
+    { pose proof (skipn_length (idx st) pat) as L. rewrite Hs in L. fold len in L.
+      rewrite app_length in L. cbn [length] in L. rewrite app_length in L. lia. }
+    assert (Hfol : exists c t, (if eol then 36%N else 94%N) :: rest ++ post = c :: t /\ (c = 40%N \/ (xpath = true /\ (c = 94%N \/ c = 36%N)))).
+    { exists (if eol then 36%N else 94%N), (rest ++ post). split; [reflexivity|]. right. split; [exact Hx|]. destruct eol; auto. }
+    destruct (run_prefix cs ((if eol then 36%N else 94%N) :: rest ++ post) st cur fuel Ocs Hfol Hs Hi ltac:(lia) Hg)
+      as (fuel1 & cur1 & st1 & Hf1 & Hf1' & Eloop & Hi1 & Hb1 & Hg1 & Sem1 & Hp1 & Fr1).
+    rewrite Eloop.
+    pose proof (skipn_app_len _ _ _ Hs) as Hs1. rewrite <- Hi1 in Hs1.
+    assert (Hi1' : idx st1 <= len) by lia.
+    destruct fuel1 as [|[|[|f]]]; try lia.
+    destruct (skipn_step _ _ _ Hs1) as [Hs2 Hlt1].
+    assert (Hh : head_fine (rest ++ post)) by (apply (head_fine_b xpath); auto).
+    rewrite branch_loop_S. fold len.
+    replace (Nat.ltb (idx st1) len) with true by (symmetry; apply Nat.ltb_lt; exact Hlt1).
+    rewrite (is_at_hd _ _ _ c_bar Hs1), (is_at_hd _ _ _ c_rparen Hs1).
+    replace (((if eol then 36 else 94) =? c_bar)%N) with false by (destruct eol; reflexivity).
+    replace (((if eol then 36 else 94) =? c_rparen)%N) with false by (destruct eol; reflexivity). cbn [negb andb].
+    rewrite (piece_anchor f st1 eol (rest ++ post) Hx Hh Hs1 Hi1'). cbn [rbind].
+    fold (push cur1 (if eol then OEol else OBol)).
+    destruct (IHb Okb post (adv 1 st1) (push cur1 (if eol then OEol else OBol)) (S (S f))
+                ltac:(unfold adv, set_idx; cbn [idx]; exact Hs2) ltac:(unfold adv, set_idx; cbn [idx]; lia) Ht
+                ltac:(fold rest; lia) (push_good _ _ Hg1 (anchor_good eol)))
+      as (r & st' & E & Hi' & Hb' & Gr & Sem' & Fr').
+    unfold adv, set_idx in Hi', Hb', Fr'. cbn [idx hasbr parens] in Hi', Hb', Fr'.
+    exists r, st'. split; [exact E|]. fold rest in Hi'. split; [lia|]. split; [congruence|]. split; [exact Gr|].
+    split.
+    2:{ intros H1 Hfr.
+        assert (Fq : framed (if eol then OEol else OBol)) by (destruct eol; exact I).
+        destruct (Fr' ltac:(lia) (push_fr _ _ (Fr1 Hfr) Fq)) as [Fr Hp']. split; [exact Fr|lia]. }
+    intros p q Hp. rewrite (Sem' p q Hp). cbn [Db]. split.
+    + intros (m & Hm & Hq). apply push_sem in Hm; auto using anchor_good. destruct Hm as (m1 & Hm1 & Hm).
+      apply (Sem1 p m1 Hp) in Hm1. destruct Hm1 as (m0 & Hm0 & Hm1).
+      exists m0. split; [exact Hm0|]. apply in_flat_map. exists m. split; [|exact Hq].
+      apply in_flat_map. exists m1. split; [exact Hm1|].
+      apply anchor_sem; [|exact Hm]. apply (lit_le input ci cs m0 m1) in Hm1. lia.
+    + intros (m0 & Hm0 & Hq). apply in_flat_map in Hq. destruct Hq as (m & Hm & Hq).
+      apply in_flat_map in Hm. destruct Hm as (m1 & Hm1 & Hm).
+      exists m. split; [|exact Hq]. apply push_sem; auto using anchor_good. exists m1. split.
+      * apply (Sem1 p m1 Hp). eauto.
+      * apply anchor_sem; [|exact Hm]. apply (lit_le input ci cs m0 m1) in Hm1. lia.
   - (* AOne *) intros b IHb Hok post st acc f1 f2 Hs Hi Ht Hf1 Hf2 Hacc. cbn [show_a ok_a] in *.
     destruct f1 as [|f1]; [lia|]. destruct f2 as [|f2]; [lia|].
     assert (Htb : term_b post) by (destruct Ht as [->|(t & ->)]; [left; auto|right; eauto]).
